@@ -11,6 +11,34 @@ func init() {
 	verifRegister("VerifC20Event", VerifC20Event)
 	verifRegister("VerifC20Getters", VerifC20Getters)
 	verifRegister("VerifC20When", VerifC20When)
+	verifRegister("VerifC20Misc", VerifC20Misc)
+}
+
+// VerifC20Misc: DetachHandlers, PoolFork without a pool limit, PanicToErr.
+func VerifC20Misc() {
+	which := vParam("misc", 0)
+	vReach("misc")
+	switch which {
+	case 0:
+		m := New(nil, Schema{"A": {}}, nil)
+		id, _ := m.HandlersBindMaps(map[string]HandlerNegotiation{"AEnter": func(e *Event) bool { return true }}, nil)
+		vKnown("c20-detachhandlers-recursion", true)
+		err := m.DetachHandlers(id)
+		vAssert("detach-ok", err == nil)
+	case 1:
+		// PoolFork from inside a handler of a machine with no pool limits (zero pools)
+		s := verifNewScn(2, false, false, false, true, false, false)
+		s.inject(false)
+		forked := false
+		s.eventHook = func(name string, e *Event) {
+			if name == "AState" && !forked {
+				forked = true
+				s.m.PoolFork(nil, e, func() {})
+			}
+		}
+		s.m.Add1("A", nil)
+		vAssert("poolfork-survives", true)
+	}
 }
 
 // verifList builds a list of symbolic length 0..max whose elements are drawn from dom (duplicates
